@@ -195,6 +195,7 @@ def broken(p, r):
            p.replace(b'|', b'|=', 1), p.replace(b'|', b'=|', 1), b'=' + p, p.replace(b'=', b'==', 1)]
     out += [re.sub(rb'=(\d+)', lambda m: b'=' + str(int(m.group(1)) + k).encode(), p, 1) for k in (3, 4294967296, -1 - 10, 2 ** 63)]
     out += [re.sub(rb"='([^']*)'", rb"='\1'x", p, 1), re.sub(rb"='([^']*)'", rb"='\1", p, 1), re.sub(rb"='([^']*)'", rb"='\1\\", p, 1),
+            re.sub(rb"='(.)", rb"='\\\1", p, 1), re.sub(rb"='([^']+)(.)'", rb"='\1\\\2'", p, 1),
             re.sub(rb'=(\w+)', rb'=\1x', p, 1), p.replace(b's|', b's=0|', 1), p.replace(b's|', b's=x|', 1), p + b'|zz', b'zz|' + p]
     return [q for q in dict.fromkeys(out) if q != p]
 
